@@ -146,10 +146,10 @@ PROPS["C16"] = dict(
 PROPS["C17"] = dict(
     level="other",
     technique="conformance of a dependency to a standard: Lean reference Keccak-256 (total, executable) vs tiny-keccak on every length 0..1100 + long messages; Lean theorems for what is monero-rs logic: hash-to-scalar = LE(digest) mod l, padding length/shape, sponge block structure; published KATs by kernel evaluation (labelled tests)",
-    level_text="PARTIAL by nature: keccak_256 is a six-line wrapper around tiny-keccak, so that the dependency *is* Keccak-f[1600] for all inputs cannot be proved here. Proved: C17_hs / C17_hash_to_scalar (result < l, = little-endian value mod l, identity below l, 32-byte encoding), C17_hs_spec (= an independently written reduction), C17_pad_len / C17_pad_shape (original 0x01..0x80 padding, rate 136), C17_absorb_blocks (the sponge absorbs exactly |pad m|/136 blocks); C17_kats_* check published vectors in the kernel (tests, not the unbounded claim). Decided by conformance: library hash = Lean reference Keccak for every length 0..=1100 (seed-derived content), block-boundary lengths and 200 (quick) / 20 000 (thorough) longer messages; hash-to-scalar on random digests and digests >= l, 2l, 2^256-1. Session 4: C17_state_size (the state stays 25 lanes: no totalised accessor falls back), C17_tables_generated (round constants, rho and pi offsets from the specification's rules), C17_keccak_sponge, C17_pad_injective, a NIST two-block vector, C17_hashable_hash_to_scalar; a table-free Rust Keccak written from the specification is a second oracle; messages up to 1 MiB.",
+    level_text="PARTIAL by nature: keccak_256 is a six-line wrapper around tiny-keccak, so that the dependency *is* Keccak-f[1600] for all inputs cannot be proved here. Proved: C17_hs / C17_hash_to_scalar (result < l, = little-endian value mod l, identity below l, 32-byte encoding), C17_hs_spec (= an independently written reduction), C17_pad_len / C17_pad_shape (original 0x01..0x80 padding, rate 136), C17_absorb_blocks (the sponge absorbs exactly |pad m|/136 blocks); C17_kats_* check published vectors in the kernel (tests, not the unbounded claim). Decided by conformance: library hash = Lean reference Keccak for every length 0..=1100 (seed-derived content), block-boundary lengths and 200 (quick) / 20 000 (thorough) longer messages; hash-to-scalar on random digests and digests >= l, 2l, 2^256-1. Session 4: C17_state_size (state size invariant: the state stays 25 lanes; a prerequisite only), C17_bounds_checked (on 25-lane states round / f1600 / xorBlock / the squeezing step of the reference equal a copy written over Vector UInt64 25 with proof-carrying accessors only, and keccak256 m = keccak256V m for every message: no totalised accessor falls back), C17_tables_generated (round constants, rho and pi offsets from the specification's rules), C17_keccak_sponge, C17_pad_injective, a NIST two-block vector (with padSha3_eq: SHA-3 padding = Keccak padding with one byte changed); C17_hash_to_scalar_keccak and C17_hashable_hash_to_scalar are corollaries / unfoldings of C17_hs at the model's definitions (the library side of both is differential); a table-free Rust Keccak written from the specification is a second oracle; messages up to 1 MiB; the KAT messages are hashed by the library in every run; hashing operations on one message back to back in every order (c17_seq); sparse digests around q*2^252 and in [q*2^252, q*l).",
     level_note="Trusted: Lean kernel and the compiled reference Keccak (validated against published vectors in the kernel); tiny-keccak is modelled, not verified. What the model cannot exhibit: a divergence of tiny-keccak from Keccak-f on an untested input.",
     design_ref="DESIGN.md §6 C17",
-    rule="every message length 0..=1100, lengths around 136*k, longer random messages; digests incl. values >= l and 2^256-1.",
+    rule="every message length 0..=1100, lengths around 136*k, longer random messages; digests incl. values >= l and 2^256-1; operation sequences on one message (every order of hash_to_scalar / Hash::new / keccak_256, lengths 0..=64); digests q*2^252, [q*2^252, q*l), q*l +-1 for q = 1..15, zero 64-bit limbs.",
     assumptions=["tiny-keccak implements Keccak-f[1600] (tested, not proved)"],
     gen_items=[],
 )
